@@ -60,16 +60,26 @@ class SymNp(types.ModuleType):
         real = getattr(_np, name)
         if isinstance(real, _np.ufunc) or not callable(real) or isinstance(real, type):
             return real
+        cached = _GUARDED.get(name)
+        if cached is not None:
+            return cached
 
         @functools.wraps(real)
         def guarded(*a, **k):
+            fx = _foreign(a, k)
+            if fx is not None:
+                r = fx.__array_function__(guarded, (type(fx),), a, k)
+                if r is not NotImplemented:
+                    return r
             if has_sym(a) or has_sym(k):
                 raise UnsupportedSymbolicOp(f"np.{name} on symbolic data")
             with _np.errstate(all="ignore"):
                 return wrap_real(real(*to_real(a), **to_real(k)))
+        _GUARDED[name] = guarded
         return guarded
 
 
+_GUARDED = {}
 symnp = SymNp("symnp")
 
 
@@ -78,12 +88,33 @@ def _reg(f):
     return f
 
 
+def _foreign(a, k):
+    """first argument (one level into lists/tuples) of a non-ndarray type implementing __array_function__"""
+    def it():
+        for x in list(a) + list(k.values()):
+            yield x
+            if isinstance(x, (list, tuple)):
+                yield from x
+    for x in it():
+        if isinstance(x, (SymArray, _np.ndarray, SV, XorSet, int, float, bool, str, type(None), _np.generic, list, tuple, dict, slice)):
+            continue
+        if hasattr(type(x), "__array_function__"):
+            return x
+    return None
+
+
 def sym_or_real(name):
     real = getattr(_np, name)
 
     def deco(f):
         @functools.wraps(f)
         def g(*a, **k):
+            fx = _foreign(a, k)
+            if fx is not None:
+                types = tuple({type(fx)})
+                r = fx.__array_function__(g, types, a, k)
+                if r is not NotImplemented:
+                    return r
             if not (has_sym(a) or has_sym(k)):
                 o = k.get("out")
                 with _np.errstate(all="ignore"):
@@ -161,6 +192,8 @@ def arange(*a, **k):
 @_reg
 def asanyarray(a, dtype=None, **k):
     if isinstance(a, SymArray):
+        if dtype is not None and _np.dtype(dtype).kind == "S" and _np.dtype(dtype).itemsize == 0 and a.dtype.kind == "S":
+            return a
         return a if dtype is None or _np.dtype(dtype) == a.dtype else a.astype(dtype)
     if isinstance(a, SymBytes):
         raise UnsupportedSymbolicOp("asarray(bytes)")
@@ -222,6 +255,7 @@ def concatenate(arrs, axis=0, out=None, dtype=None, **k):
             if not isinstance(a, (SymArray, _np.ndarray)) and hasattr(a, "__array_function__"):
                 return a.__array_function__(_np.concatenate, (type(a),), (arrs,), {"axis": axis})
     if _b.any(isinstance(a, SymArray) and a.dtype.kind == "S" for a in arrs):
+        arrs = [SymArray.from_S(a) if isinstance(a, _np.ndarray) else a for a in arrs]
         k = _b.max(a.dtype.itemsize for a in arrs)
         parts = [a.astype(f"S{k}").vals for a in arrs]
         return SymArray(_np.concatenate(parts, axis=axis), f"S{k}")
